@@ -250,8 +250,16 @@ func (t *Thread) selectPoint(hasDefault bool, n int, infos *[MaxCases]caseReq) i
 	t.req.ncase = n
 	t.req.hasDefault = hasDefault
 	t.req.cases = *infos
-	t.req.yield = t.daemon && daemonYield && !hasDefault
-	if shadowOn && inHand != nil && !hasDefault {
+	// A daemon's select is a voluntary switch point when it blocks (its idle loop) and also when
+	// it polls a channel for more work (`select { case x := <-ch: ... default: }` - a change may
+	// make the applier drain its buffer in batches): the sequential driver then still sees ONE
+	// buffered item per applier step, whatever the loop structure of the code.
+	polls := false
+	for i := 0; i < n; i++ {
+		polls = polls || !infos[i].send
+	}
+	t.req.yield = t.daemon && daemonYield && (!hasDefault || polls)
+	if shadowOn && inHand != nil && (!hasDefault || (t.daemon && polls)) {
 		delete(inHand, t.id)
 	}
 	return t.park()
